@@ -290,17 +290,31 @@ def receive (s : Tcb) : Tcb × List UInt8 :=
 def finHdr (s : Tcb) : Hdr :=
   (((s.headerBuilder s.snd.nxt).withFin).withAck s.rcv.nxt).withWnd s.rcv.wnd
 
+/-- `Tcb::queue_fin`: form the FIN once all preceding SENDs have been segmentized (3.10.4) -/
+def queueFin (s : Tcb) : Except String Tcb :=
+  if s.outgoing.text.isEmpty then
+    match s.enqueue s.finHdr with
+    | .error e => .error e
+    | .ok s => .ok { s with snd.nxt := s.snd.nxt + 1 }
+  else .ok s
+
+/-- `Tcb::fin_pending`: `close` was called while text was still waiting to be segmentized -/
+def finPending (s : Tcb) : Bool :=
+  (match s.state with
+   | .FinWait1 | .Closing | .LastAck => true
+   | _ => false) && !s.outgoing.text.isEmpty
+
 /-- `Tcb::close` -/
 def close (s : Tcb) : M CloseResult :=
   match s.state with
   | .SynReceived | .Established =>
-    match s.enqueue s.finHdr with
+    match ({ s with state := .FinWait1 } : Tcb).queueFin with
     | .error e => .error e
-    | .ok s => .ok ({ s with snd.nxt := s.snd.nxt + 1, state := .FinWait1 }, .Ok)
+    | .ok s => .ok (s, .Ok)
   | .CloseWait =>
-    match s.enqueue s.finHdr with
+    match ({ s with state := .LastAck } : Tcb).queueFin with
     | .error e => .error e
-    | .ok s => .ok ({ s with snd.nxt := s.snd.nxt + 1, state := .LastAck }, .Ok)
+    | .ok s => .ok (s, .Ok)
   | _ => .ok (s, .ConnectionClosing)
 
 /-- `Tcb::abort` (`Outgoing::reset` then an RST) -/
@@ -335,28 +349,37 @@ def segmentize (maxSegmentLength : Nat) : Nat → Tcb → Nat → Except String 
                         outgoing.retransmit := s.outgoing.retransmit ++ [Transmit.new ⟨header, text⟩] }
       segmentize maxSegmentLength fuel s (queuedBytes + bytes)
 
-/-- the `match self.state { SynSent | SynReceived | Established | CloseWait => { … loop … } }`
-    part of `Tcb::segments` -/
+/-- the `match self.state { SynSent | SynReceived | Established | CloseWait | FinWait1 | Closing |
+    LastAck => { … loop … } }` part of `Tcb::segments` (in the last three states text is queued
+    only while the FIN waits for it) -/
 def segmentizeIfOpen (s : Tcb) : Except String Tcb :=
   match s.state with
-  | .SynSent | .SynReceived | .Established | .CloseWait =>
+  | .SynSent | .SynReceived | .Established | .CloseWait | .FinWait1 | .Closing | .LastAck =>
     -- let max_segment_length = (self.mtu - SPACE_FOR_HEADERS) as usize;
     if s.mtu.toNat < SPACE_FOR_HEADERS then .error "panic:sub-overflow:segments.max_segment_length"
     else segmentize (s.mtu.toNat - SPACE_FOR_HEADERS) (s.outgoing.text.length + 1) s
            s.outgoing.queuedBytes
   | _ => .ok s
 
+/-- `if fin_pending { self.queue_fin(); }` of `Tcb::segments` (`fin_pending` was evaluated
+    before the segmentization loop) -/
+def finIfPending (finPending : Bool) (s : Tcb) : Except String Tcb :=
+  if finPending then s.queueFin else .ok s
+
 /-- `Tcb::segments` -/
 def segments (s : Tcb) : M (List Segment) :=
   let out0 : List Segment := s.outgoing.oneshot.map fun h => ⟨h, []⟩
   match segmentizeIfOpen { s with outgoing.oneshot := [] } with
   | .error e => .error e
-  | .ok s =>
-    let out := out0 ++ (s.outgoing.retransmit.filter (·.needsTransmit)).map (·.segment)
-    let s := { s with outgoing.retransmit :=
-                        s.outgoing.retransmit.map fun t => { t with needsTransmit := false } }
-    let s := if out.isEmpty then s else { s with timeouts.retransmission := RTO }
-    .ok (s, out)
+  | .ok s1 =>
+    match finIfPending s.finPending s1 with
+    | .error e => .error e
+    | .ok s =>
+      let out := out0 ++ (s.outgoing.retransmit.filter (·.needsTransmit)).map (·.segment)
+      let s := { s with outgoing.retransmit :=
+                          s.outgoing.retransmit.map fun t => { t with needsTransmit := false } }
+      let s := if out.isEmpty then s else { s with timeouts.retransmission := RTO }
+      .ok (s, out)
 
 /-- `Tcb::is_in_rcv_window` -/
 def isInRcvWindow (s : Tcb) (n : Seq) : Bool :=
@@ -374,7 +397,7 @@ def isSeqOk (s : Tcb) (dataLen : Seq) (seq : Seq) (syn fin : Bool) : Except Stri
   else .ok (s.isInRcvWindow seq || s.isInRcvWindow (seq + segLen - 1))
 
 /-- `Tcb::is_fin_acked` -/
-def isFinAcked (s : Tcb) : Bool := s.snd.nxt == s.snd.una
+def isFinAcked (s : Tcb) : Bool := !s.finPending && s.snd.nxt == s.snd.una
 
 /-- `Tcb::remove_acked_from_retransmission`: keep exactly the entries with
     `mod_lt(snd_una, seq + seg_len)` -/
@@ -469,17 +492,21 @@ def ackBlock (s : Tcb) (seg : Hdr) : B :=
           { s with state := .TimeWait, timeouts.timeWait := some TIME_WAIT } else s
       if r = .Success then .ok (s, none) else .ok (s, some r)
   | .LastAck =>
-    let s := { s with snd.una := seg.ack }
-    if s.isFinAcked then .ok (s, some .FinalizeClose) else .ok (s, none)
+    afterAckEstablished (s.ackEstablishedProcessing seg) fun s r =>
+      if s.isFinAcked then .ok (s, some .FinalizeClose)
+      else if r = .Success then .ok (s, none) else .ok (s, some r)
   | .TimeWait =>
-    enqueueThen s (((s.headerBuilder s.snd.nxt).withAck (seg.seq + 1)).withWnd s.rcv.wnd) fun s =>
-      .ok ({ s with timeouts.timeWait := some TIME_WAIT }, none)
+    -- only a retransmitted FIN is acknowledged and restarts the 2 MSL timeout (in `finBlock`)
+    .ok (s, none)
 
 /-- block 3: `if seg.ctl.rst() { match self.state … }` -/
 def rstBlock (s : Tcb) (seg : Hdr) : B :=
   if !seg.ctl.rst then .ok (s, none) else
   match s.state with
-  | .SynSent => if seg.seq = s.rcv.nxt then .ok (s, some .ConnectionReset) else .ok (s, some .BlindReset)
+  | .SynSent =>
+    -- 3.10.7.3, second: "Otherwise (no ACK), drop the segment and return."
+    if !seg.ctl.ack then .ok (s, some .DiscardSegment)
+    else if seg.seq = s.rcv.nxt then .ok (s, some .ConnectionReset) else .ok (s, some .BlindReset)
   | .SynReceived =>
     match s.initiation with
     | .Listen => .ok (s, some .ReturnToListen)
